@@ -14,6 +14,14 @@
 4. numeric projection (not TLC): float32(raw) x factor for all 65 536 values x every gain, both bands; factor derived
    independently from the metadata written (range / maxint / gain), relative tolerance 2e-6.
 5. binding self-tests: corrupted traces must be flagged, a perturbed table entry must be noticed.
+6. input forms and histories (gap audit after seed round e): selectors are handed in as python ints / slices / lists, as
+   int64, int32, uint8 / int16, non-contiguous and read-only arrays, NumPy integer scalars and slices with NumPy bounds;
+   array objects are handed in again by later reads; every result is overwritten after it was decoded; probe records
+   with the site table as snsGeomMap, the second imDatPrb_type of NP2.1 / NP2.4, no sync channel saved, other ranges /
+   imMaxInt / sampling rates, nidq without / with two digital words; history_axis: recordings sharing a file name and a
+   folder, all readers alive before the first read (half opened later), reads in turn, repeated calls, failing calls,
+   close + open, and the files of a recording replaced under the same names.  A reader that raises at construction is
+   a violation (open:Raised), not a machinery failure.
 """
 import copy
 import logging
@@ -36,13 +44,42 @@ KNOWN_F12 = "cbin:negative-step-sample-slice"
 
 # ------------------------------------------------------------------------------------------------
 # selectors: JSON form (lib/PySlice.tla) <-> python objects
-def sel_py(sel, array=False):
+NFORMS = 6
+
+
+def sel_py(sel, array=False, npint=False):
+    """selector record -> the object handed to the reader.  `array` is the *form* of the object: False / 0 python objects
+    (int, slice of ints, list), True / 1 an int64 array, 2 an int32 array, 3 the smallest integer dtype that holds the
+    entries (uint8 / int16) and slice bounds as NumPy integers, 4 a non-contiguous int64 view, 5 a read-only intp array
+    and slice bounds as NumPy integers.  With `npint` an integer selector of form >= 2 is a NumPy integer scalar (what
+    np.argmax / iterating over np.arange give), not a python int."""
+    form = int(array)
     if sel["k"] == "int":
-        return int(sel["i"])
+        i = int(sel["i"])
+        if npint and form >= 2:
+            return (np.int64, np.int32, np.int16, np.intp)[form % 4](i)
+        return i
     if sel["k"] == "slice":
-        return slice(*[None if sel[f] == NONE else int(sel[f]) for f in ("a", "b", "s")])
+        v = [None if sel[f] == NONE else int(sel[f]) for f in ("a", "b", "s")]
+        if form in (3, 5):
+            v = [x if x is None else np.int64(x) for x in v]
+        return slice(*v)
     lst = [int(v) for v in sel["l"]]
-    return np.array(lst, dtype=np.int64) if array else lst
+    if form == 0:
+        return lst
+    if form == 2:
+        return np.array(lst, dtype=np.int32)
+    if form == 3:
+        return np.array(lst, dtype=np.uint8 if all(0 <= v < 256 for v in lst) else np.int16)
+    if form == 4:
+        base = np.full(2 * len(lst), -1, dtype=np.int64)
+        base[::2] = lst
+        return base[::2]
+    if form == 5:
+        a = np.array(lst, dtype=np.intp)
+        a.setflags(write=False)
+        return a
+    return np.array(lst, dtype=np.int64)
 
 
 def S(a=NONE, b=NONE, s=NONE):
@@ -70,12 +107,15 @@ def small_sites(kind, n, rnd):
 
 def make_recording(folder, spec):
     """spec: kind ('nidq' or a metagen kind), stream, sites | nidq=(mn,ma,xa,dw), ns, seed, gains (list of (ap,lf)),
-    big (bool).  Returns dict with path, data, truth factors, gain classes, gen, sites."""
+    big (bool); optional encoding ('shank' | 'geom'), nsync (0: no sync channel saved), extra (further metadata keys, e.g.
+    the other imDatPrb_type of a generation), range_max / maxint, fs, stem (file name; default unique per recording).
+    Returns dict with path, data, truth factors, gain classes, gen, sites."""
     rng = np.random.default_rng(spec["seed"])
     ns = spec["ns"]
     if spec["kind"] == "nidq":
         mn, ma, xa, dw = spec["nidq"]
-        text, info = metagen.make_nidq_meta(mn, ma, xa, dw, ns=ns, mn_gain=spec.get("mn_gain", 200), ma_gain=spec.get("ma_gain", 4))
+        text, info = metagen.make_nidq_meta(mn, ma, xa, dw, ns=ns, mn_gain=spec.get("mn_gain", 200), ma_gain=spec.get("ma_gain", 4),
+                                            range_max=spec.get("range_max") or 5)
         nc, nsync = mn + ma + xa + dw, dw
         i2v = info["range_max"] / 32768
         factors = [i2v / info["mn_gain"]] * mn + [i2v / info["ma_gain"]] * ma + [i2v] * xa + [1.0] * dw
@@ -84,13 +124,15 @@ def make_recording(folder, spec):
         sites = [tuple(s) for s in spec["sites"]]
         stream = spec.get("stream", "ap")
         text, info = metagen.make_meta(spec["kind"], sites, stream=stream, ns=ns, gains=spec.get("gains"),
-                                       range_max=spec.get("range_max"), maxint=spec.get("maxint"))
-        nc, nsync = info["nc"], 1
+                                       range_max=spec.get("range_max"), maxint=spec.get("maxint"),
+                                       encoding=spec.get("encoding", "shank"), nsync=spec.get("nsync", 1), extra=spec.get("extra"),
+                                       fs=spec.get("fs"))
+        nc, nsync = info["nc"], info["nsync"]
         i2v = info["range_max"] / info["maxint"]
         if c08.GEN[spec["kind"]] == "NP2":
-            factors = [i2v / 80] * len(sites) + [1.0]
+            factors = [i2v / 80] * len(sites) + [1.0] * nsync
         else:
-            factors = [i2v / (g[0] if stream == "ap" else g[1]) for g in info["gains"]] + [1.0]
+            factors = [i2v / (g[0] if stream == "ap" else g[1]) for g in info["gains"]] + [1.0] * nsync
         suffix, gen = "." + stream, c08.GEN[spec["kind"]]
     factors = np.array(factors, dtype=np.float64)
     uniq = sorted(set(factors[:nc - nsync].tolist()))
@@ -106,18 +148,32 @@ def make_recording(folder, spec):
         else:
             raise tlc.TLCError("could not draw data with separable calibrated values")
     folder = Path(folder)
-    stem = f"r{spec['seed']}_{spec['kind'].replace('.', '')}"
+    stem = spec.get("stem") or f"r{spec['seed']}_{spec['kind'].replace('.', '')}"
     b = metagen.write_recording(folder, stem, text, data, suffix=suffix)
     return {"bin": b, "data": data, "factors": factors, "classes": classes, "gen": gen, "sites": [list(s) for s in sites],
             "nc": nc, "nsync": nsync, "ns": ns, "spec": spec}
 
 
-def compress(rec, K):
-    """-> path of the .cbin with chunks of K samples (bounds verified)"""
+def compress(rec, K, ctx=None, hist=None):
+    """-> path of the .cbin with chunks of K samples (bounds verified).  With ctx: None if the recording cannot be opened
+    or compressed (reported as the reader raising at open: there is nothing to index)"""
     import spikeglx
-    sr = spikeglx.Reader(rec["bin"], sort=False)
-    cb = sr.compress_file(keep_original=True, chunk_duration=K / sr.fs, check_after_compress=False, n_threads=1, quiet=True)
-    sr.close()
+    try:
+        sr = spikeglx.Reader(rec["bin"], sort=False)
+        if ctx is not None and tuple(sr.shape) != (rec["ns"], rec["nc"]):
+            # the whole array the property indexes is not the file's: no chunking of it can be what the model assumes
+            ctx.violation("open:Shape", f"{describe(rec['spec'], 'bin', 0, False, rec['ns'], rec['nc'])}: Reader({rec['bin'].name}).shape is "
+                          f"{tuple(sr.shape)}, the recording written is {(rec['ns'], rec['nc'])}",
+                          {"spec": rec["spec"], "fmt": "bin", "K": 0, "sort": False, "read": None} | ({"hist": hist} if hist else {}))
+            sr.close()
+            return None
+        cb = sr.compress_file(keep_original=True, chunk_duration=K / sr.fs, check_after_compress=False, n_threads=1, quiet=True)
+        sr.close()
+    except Exception as e:
+        if ctx is None:
+            raise
+        open_raised(ctx, rec, "bin", 0, False, rec["bin"], e, hist)
+        return None
     # chunk bounds straight from the header file mtscomp wrote (no private attribute of the Reader involved)
     import json as _json
     bounds = list(_json.loads(Path(cb).with_suffix(".ch").read_text())["chunk_bounds"])
@@ -153,8 +209,18 @@ def decode(dec, out):
     return [[int(a), int(b), int(dec["qs"][k])] if g else [-1, -1, -1] for a, b, k, g in zip(t, c, q, ok)]
 
 
-def do_read(sr, api, nsel, csel, array=False):
-    a, b = sel_py(nsel, array), sel_py(csel, array)
+def do_read(sr, api, nsel, csel, array=False, np_rows=False, objs=None):
+    """np_rows: the sample selector may be a NumPy integer scalar (uncompressed files, two selectors: see the assumptions);
+    objs: selector objects of earlier reads of this reader, handed in again (the caller's arrays are the caller's: a
+    read that wrote into one is seen by the next read that uses it)"""
+    def obj(axis, sel, npint):
+        if objs is None or sel["k"] != "list":
+            return sel_py(sel, array, npint)
+        key = (axis, sel_key(sel), int(array))
+        if key not in objs:
+            objs[key] = sel_py(sel, array, npint)
+        return objs[key]
+    a, b = obj(0, nsel, np_rows and api != "getitem1"), obj(1, csel, True)
     if api == "getitem2":
         return sr[a, b]
     if api == "getitem1":
@@ -162,45 +228,129 @@ def do_read(sr, api, nsel, csel, array=False):
     if api == "read":
         return sr.read(nsel=a, csel=b, sync=False)
     if api == "read_sync":       # default sync=True: (data, sync)
-        return sr.read(nsel=a, csel=b)[0]
+        v, sy = sr.read(nsel=a, csel=b)
+        scribble(sy)
+        return v
     if api == "read_samples":
         return sr.read_samples(first_sample=a.start, last_sample=a.stop, channels=b)[0]
+    if api == "read_default":    # column selector left to its default (callers pair it with the all-columns selector)
+        return sr.read(a, sync=False)
+    if api == "read_samples_default":
+        return sr.read_samples(a.start, a.stop)[0]
     raise ValueError(api)
 
 
-def open_trace(rec, path, fmt, K, sort):
+def scribble(v):
+    """what a caller may do with a result: overwrite it in place.  A result that shares memory with the reader (or with an
+    earlier result) shows in the reads that follow."""
+    if isinstance(v, np.ndarray) and v.flags.writeable and v.size:
+        v[...] = 77 if v.dtype.kind in "iu" else 1.2345e6
+
+
+def open_trace(rec, path, fmt, K, sort, opened=True):
     import spikeglx
     logging.disable(logging.CRITICAL)
-    sr = spikeglx.Reader(path, sort=sort)
+    sr = spikeglx.Reader(path, sort=sort) if opened else spikeglx.Reader(path, sort=sort, open=False)
     hdr = c08.project(sr.geometry, rec["gen"]) if rec["gen"] else ([] if sr.geometry is None else [[c08.BAD] * 9])
     order = [int(v) for v in np.asarray(sr.raw_channel_order).reshape(-1)]
     t = {"ns": rec["ns"], "nc": rec["nc"], "nsync": rec["nsync"], "fmt": fmt, "K": K, "sort": bool(sort), "gen": rec["gen"],
          "sites": rec["sites"], "gain": rec["classes"], "order": order, "hdr": hdr, "reads": [],
-         "spec": rec["spec"], "shape_ok": tuple(sr.shape) == (rec["ns"], rec["nc"])}
+         "spec": rec["spec"], "shape_ok": (not opened) or tuple(sr.shape) == (rec["ns"], rec["nc"])}
     return sr, t
 
 
-def record_reads(rec, path, fmt, K, sort, reads, per_trace=150):
-    """reads: list of (api, nsel, csel, array?) -> list of traces"""
-    sr, head = open_trace(rec, path, fmt, K, sort)
-    dec = decoder(rec["data"], rec["factors"], rec["classes"])
-    out = []
+def describe(spec, fmt, K, sort, ns, nc):
+    return f"{spec['kind']} {fmt}{'/K=' + str(K) if fmt == 'cbin' else ''} sort={sort} ns={ns} nc={nc}"
+
+
+def open_raised(ctx, rec, fmt, K, sort, path, e, hist):
+    """ "for any SpikeGLX recording": a reader that cannot be made returns nothing at all"""
+    ctx.violation("open:Raised", f"{describe(rec['spec'], fmt, K, sort, rec['ns'], rec['nc'])}: Reader({Path(path).name}, "
+                  f"sort={sort}) raised {type(e).__name__}: {e}"[:300],
+                  {"spec": rec["spec"], "fmt": fmt, "K": K, "sort": sort, "read": None} | ({"hist": hist} if hist else {}))
+
+
+class Session:
+    """one Reader object and the reads made through it, recorded as traces of at most per_trace reads.  Results are
+    decoded at once and then overwritten (scribble); list / array selectors are handed in again as the same objects."""
+
+    def __init__(self, ctx, rec, path, fmt, K, sort, opened=True, per_trace=150, hist=None):
+        self.rec, self.fmt, self.per_trace, self.traces, self.objs, self.sr, self.opened = rec, fmt, per_trace, [], {}, None, opened
+        if path is None:             # the recording could not be compressed: already reported by compress()
+            return
+        try:
+            self.sr, self.head = open_trace(rec, path, fmt, K, sort, opened)
+        except Exception as e:
+            open_raised(ctx, rec, fmt, K, sort, path, e, hist)
+            return
+        if hist:
+            self.head["hist"] = hist
+        if not self.head["shape_ok"]:
+            ctx.violation("open:Shape", f"{describe(rec['spec'], fmt, K, sort, rec['ns'], rec['nc'])}: Reader({Path(path).name}).shape is "
+                          f"{tuple(self.sr.shape)}, the recording written is {(rec['ns'], rec['nc'])}", scenario(self.head, None))
+        self.dec = decoder(rec["data"], rec["factors"], rec["classes"])
+        self.cur = None
+
+    def read(self, api, nsel, csel, form=False):
+        if self.sr is None:
+            return
+        if self.cur is None or len(self.cur["reads"]) >= self.per_trace:
+            self.cur = copy.deepcopy(self.head)
+            self.traces.append(self.cur)
+        r = {"api": "getitem1" if api == "getitem1" else "getitem2" if api == "getitem2" else "read", "call": api,
+             "nsel": nsel, "csel": csel, "form": int(form), "shape": [], "toks": [], "exc": ""}
+        try:
+            v = do_read(self.sr, api, nsel, csel, form, np_rows=self.fmt == "bin", objs=self.objs)
+            r["shape"] = [int(x) for x in np.shape(v)]
+            r["toks"] = decode(self.dec, v)
+            scribble(v)
+        except Exception as e:
+            r["exc"] = f"{type(e).__name__}: {e}"[:200]
+        self.cur["reads"].append(r)
+
+    def poke(self, k):
+        """a call that cannot succeed (no result to judge): the reader must serve the reads that follow all the same"""
+        ns, nc = self.rec["ns"], self.rec["nc"]
+        if self.sr is None:
+            return
+        try:
+            if k % 4 == 0:
+                self.sr[ns + 2, :]
+            elif k % 4 == 1:
+                self.sr[:, nc + 1]
+            elif k % 4 == 2:
+                self.sr.read(nsel=[0, ns + 5], csel=slice(None), sync=False)
+            else:
+                self.sr[slice(None), [0, -nc - 3]]
+        except Exception:
+            pass
+
+    def reopen(self):
+        if self.sr is not None:
+            self.sr.close()
+            self.sr.open()
+
+    def open(self):
+        if self.sr is not None and not self.opened:
+            self.sr.open()
+            self.opened = True
+
+    def close(self):
+        """-> traces (a reader without reads still gives its open step)"""
+        if self.sr is None:
+            return []
+        self.sr.close()
+        return self.traces or [copy.deepcopy(self.head)]
+
+
+def record_reads(ctx, rec, path, fmt, K, sort, reads, per_trace=150):
+    """reads: list of (api, nsel, csel, form) -> list of traces"""
+    ses = Session(ctx, rec, path, fmt, K, sort, per_trace=per_trace)
     try:
-        for i in range(0, max(1, len(reads)), per_trace):
-            t = copy.deepcopy(head)
-            for api, nsel, csel, arr in reads[i:i + per_trace]:
-                r = {"api": "read" if api in ("read_sync", "read_samples") else api, "call": api, "nsel": nsel, "csel": csel,
-                     "shape": [], "toks": [], "exc": ""}
-                try:
-                    v = do_read(sr, api, nsel, csel, arr)
-                    r["shape"] = [int(x) for x in np.shape(v)]
-                    r["toks"] = decode(dec, v)
-                except Exception as e:
-                    r["exc"] = f"{type(e).__name__}: {e}"[:200]
-                t["reads"].append(r)
-            out.append(t)
+        for api, nsel, csel, form in reads:
+            ses.read(api, nsel, csel, form)
     finally:
-        sr.close()
+        out = ses.close()
     return out
 
 
@@ -251,7 +401,7 @@ def judge(ctx, trs, label, jvms=4):
 
 
 def slim(t):
-    return {k: v for k, v in t.items() if k not in ("spec", "shape_ok")}
+    return {k: v for k, v in t.items() if k not in ("spec", "shape_ok", "hist")}
 
 
 def show(sel):
@@ -263,8 +413,11 @@ def show(sel):
 
 
 def scenario(t, r):
-    return {"spec": t["spec"], "fmt": t["fmt"], "K": t["K"], "sort": t["sort"],
-            "read": None if r is None else {"call": r["call"], "nsel": r["nsel"], "csel": r["csel"]}}
+    sc = {"spec": t["spec"], "fmt": t["fmt"], "K": t["K"], "sort": t["sort"],
+          "read": None if r is None else {"call": r["call"], "nsel": r["nsel"], "csel": r["csel"], "form": r.get("form", 0)}}
+    if t.get("hist"):        # the read was made in a history (other readers alive, earlier calls, files rewritten): replay re-runs it
+        sc["hist"] = t["hist"]
+    return sc
 
 
 # ------------------------------------------------------------------------------------------------
@@ -279,7 +432,42 @@ def kinds_small(rnd, maxnc=9):
         out.append({"kind": kind, "stream": stream, "sites": small_sites(kind, n, rnd), "gains": g(n)})
     out.append({"kind": "nidq", "nidq": (2, 1, 2, 1) if maxnc >= 6 else (1, 1, 1, 1)})
     out.append({"kind": "nidq", "nidq": (0, 0, 1, 1)})
+    # further members of "all probe metadata" (appended: the records above keep their places): the site table written as
+    # snsGeomMap (x / y in um, SpikeGLX >= 2023-04), the second imDatPrb_type of the NP2 generations, recordings saved
+    # without their sync channel (a channel subset), other full-scale ranges / imMaxInt, nidq files without a digital word,
+    # with two, without analog sync channels, with other gains
+    for kind, stream, n, more in (
+            ("3B2", "ap", 7, {"encoding": "geom", "fs": 30000.0724}), ("NP2.4", "ap", 6, {"encoding": "geom", "extra": {"imDatPrb_type": 2013}}),
+            ("NP2.1", "ap", 5, {"extra": {"imDatPrb_type": 1030}, "range_max": 0.62, "maxint": 2048}),
+            ("3B2", "ap", 6, {"nsync": 0}), ("NP2.4", "ap", 5, {"nsync": 0, "range_max": 0.31, "maxint": 4096, "fs": 29999.9473}),
+            ("3A", "lf", 4, {"encoding": "geom", "nsync": 0, "fs": 2500.0061}), ("NPultra", "ap", 5, {"range_max": 0.45, "maxint": 1024})):
+        n = min(n, maxnc - 1)
+        out.append(dict({"kind": kind, "stream": stream, "sites": small_sites(kind, n, rnd), "gains": g(n)}, **more))
+    out.append({"kind": "nidq", "nidq": (2, 1, 1, 0) if maxnc >= 4 else (1, 1, 1, 0), "mn_gain": 100, "ma_gain": 8, "range_max": 2.5})
+    out.append({"kind": "nidq", "nidq": (0, 0, 2, 2)})
+    out.append({"kind": "nidq", "nidq": (1, 2, 0, 1), "range_max": 10})
     return out
+
+
+def model_export(ctx, quick):
+    """TLC on the model of the current tree; -> the exported index tables"""
+    import json
+    cfg = "mc/ReaderIndex_quick.cfg" if quick else "mc/ReaderIndex_thorough.cfg"
+    out = ctx.scratch / "ri_export.json"
+    r = tlc.run("mc/MC_ReaderIndex.tla", cfg, workers=4, timeout=3000, heap="6g", env={"OUT_FILE": str(out)})
+    ctx.tlc(r, cfg)
+    if not r.ok:
+        raise tlc.TLCError(f"ReaderIndex model: {r.invariant_violated} fails in the model of the current tree\n{r.out[-2500:]}")
+    return json.loads(out.read_text())
+
+
+def tables_by_length(small):
+    by_n = {}
+    for e in small:
+        by_n.setdefault(e["n"], []).append(e["sel"])
+    for n in by_n:
+        by_n[n].sort(key=sel_key)
+    return by_n
 
 
 def run(ctx):
@@ -287,33 +475,25 @@ def run(ctx):
     rnd = random.Random(ctx.seed)
     logging.disable(logging.CRITICAL)
     # 1. model + export
-    cfg = "mc/ReaderIndex_quick.cfg" if ctx.quick else "mc/ReaderIndex_thorough.cfg"
-    out = ctx.scratch / "ri_export.json"
-    r = tlc.run("mc/MC_ReaderIndex.tla", cfg, workers=4, timeout=3000, heap="6g", env={"OUT_FILE": str(out)})
-    ctx.tlc(r, cfg)
-    if not r.ok:
-        raise tlc.TLCError(f"ReaderIndex model: {r.invariant_violated} fails in the model of the current tree\n{r.out[-2500:]}")
+    export = model_export(ctx, ctx.quick)
     if not ctx.quick:
         r0 = tlc.run("mc/MC_ReaderIndex.tla", "mc/ReaderIndex_orig.cfg", workers=4, timeout=1200)
         ctx.tlc(r0, "mc/ReaderIndex_orig.cfg")
         if r0.ok or r0.invariant_violated not in ("ReadOK", "ShapeOK"):
             raise tlc.TLCError("vacuity control: the model of the tree before the negative-step fix does not violate ReadOK")
         ctx.cov["model_of_unfixed_tree_violates"] = r0.invariant_violated
-    import json
-    export = json.loads(out.read_text())
     small, big = export["small"], export["big"]
     ctx.cov["table_entries_checked_against_numpy"] = check_table_against_numpy(small) + check_table_against_numpy(big)
-    by_n = {}
-    for e in small:
-        by_n.setdefault(e["n"], []).append(e["sel"])
-    for n in by_n:
-        by_n[n].sort(key=sel_key)
+    by_n = tables_by_length(small)
     maxn = max(by_n)
     # 2./3. small recordings, traces
     trs = []
     trs += sample_axis(ctx, rnd, by_n)
     trs += column_axis(ctx, rnd, by_n)
     trs += kinds_axis(ctx, rnd, by_n, maxn)
+    hist = history_axis(ctx, by_n, maxn, ctx.seed, ctx.quick)
+    ctx.cov["reads_in_histories"] = sum(len(t["reads"]) for t in hist)
+    trs += hist
     rnd.shuffle(trs)
     nreads = sum(len(t["reads"]) for t in trs)
     for t in trs:
@@ -335,16 +515,31 @@ def run(ctx):
     ctx.cov["rule"] = ("model: every selector (int, slice start/stop in None + -(n+2)..n+2 x step None,+-1..+-3, lists) on every length of "
                        "the box, bin and cbin; reads: the selector universe is TLC's export - every sample selector on bin and cbin "
                        "files of that length, every column selector on a sorted non-identity file of that width, seeded pairs on "
-                       "every probe record x sort x format; non-trivial = distinct (ns, nc, format, sort, selectors) with a non-empty result")
+                       "every probe record x sort x format (shank and geom maps, both NP2 probe types, with / without / two sync channels); "
+                       "histories: interleaved readers on recordings sharing names and folders, repeated / failing calls, reopen, files "
+                       "replaced under the same names; selector objects in 6 forms, reused; results overwritten by the caller; "
+                       "non-trivial = distinct (ns, nc, format, sort, selectors) with a non-empty result")
     ctx.cov["exhaustive"] = True
     ctx.cov["numeric_postconditions"] = ["float32(raw) x factor, relative 2e-6, factor = range/maxint/gain from the metadata written "
                                          "(projection on the real output, all 65536 values x 8 gains x AP/LF, NP2, nidq)"]
     ctx.assumptions += [
         "a sample selector and a column selector that are both index lists are not combined (NumPy would pair them, the reader "
         "takes the outer product; the property text does not say which)",
-        "integer selectors are python ints inside -n..n-1; index lists on samples only on uncompressed files (quantifier)",
+        "integer selectors lie inside -n..n-1; index lists on samples only on uncompressed files (quantifier)",
+        "NumPy integer scalars (np.int64(i), ...) stand for integer channel selectors everywhere and for integer sample selectors of "
+        "two-selector reads on uncompressed files; a single-selector read sr[np.int64(i)] raises TypeError and a NumPy integer "
+        "sample selector on a .cbin gives an empty array on the unchanged tree (reported, not part of the run)",
+        "a list / array of sample indices always comes with a channel selector: sr[[0, 2]] alone is dispatched as the pair (0, 2) "
+        "on the unchanged tree (reported, not part of the run)",
+        "NP1 gains: the imroTbl written lists the saved channels first (the reader takes its first n entries); a saved subset "
+        "that does not start at channel 0 under SpikeGLX's complete 384-entry table is not generated (reported)",
         "decoding returned values to tokens relies on data drawn so that all candidate products differ by > 1e-4 relative",
         "mtscomp chunking is modelled with equal chunks of K samples (verified per file from chunk_bounds)"]
+
+
+def form_of(j):
+    """every other read hands python objects in (ints, slices, lists), the others cycle through the array forms of sel_py"""
+    return 0 if j % 2 else 1 + (j // 2) % (NFORMS - 1)
 
 
 def pool_cols(nc, rnd):
@@ -374,7 +569,7 @@ def sample_axis(ctx, rnd, by_n):
                 variants += [("cbin", K, None) for K in Ks]
             for fmt, K, path in variants:
                 if fmt == "cbin":
-                    path = compress(rec, K)
+                    path = compress(rec, K, ctx)
                 reads = []
                 pool = pool_cols(rec["nc"], rnd)
                 for j, sel in enumerate(sels):
@@ -386,9 +581,11 @@ def sample_axis(ctx, rnd, by_n):
                     if sel["k"] == "list" and csel["k"] == "list":
                         csel = ALL
                     api = "getitem1" if (csel is ALL and sel["k"] != "list" and j % 2) else ("read" if j % 3 == 0 else "getitem2")
-                    reads.append((api, sel, csel, j % 2 == 0))
-                trs += record_reads(rec, path, fmt, K, sort, reads)
-                if fmt == "cbin":
+                    if csel is ALL and sel["k"] != "list" and j % 16 == 8:      # the column selector left to its default
+                        api = "read_samples_default" if (sel["k"] == "slice" and sel["s"] == NONE and j % 32 == 8) else "read_default"
+                    reads.append((api, sel, csel, form_of(j)))
+                trs += record_reads(ctx, rec, path, fmt, K, sort, reads)
+                if fmt == "cbin" and path is not None:
                     path.unlink()
                     path.with_suffix(".ch").unlink()
     return trs
@@ -410,7 +607,7 @@ def column_axis(ctx, rnd, by_n):
             spec = {"kind": kind, "stream": "ap", "sites": sites, "gains": [(GAINS[(i * 3 + 2) % 8], GAINS[(i + 5) % 8]) for i in range(nd)],
                     "ns": 4, "seed": 2000 + nc + 97 * ctx.seed}
             rec = make_recording(ctx.scratch / "c01" / f"c{nc}{kind[:2]}", spec)
-            cb = compress(rec, 3)
+            cb = compress(rec, 3, ctx)
             for fmt, K, path in (("bin", 0, rec["bin"]), ("cbin", 3, cb)):
                 pool = pool_rows(4, fmt, rnd)
                 reads = []
@@ -422,8 +619,8 @@ def column_axis(ctx, rnd, by_n):
                         nsel = ALL
                     api = "read_samples" if (nsel["k"] == "slice" and nsel["s"] == NONE and j % 5 == 0) else \
                         ("read_sync" if j % 7 == 0 else "getitem2")
-                    reads.append((api, nsel, sel, j % 2 == 1))
-                trs += record_reads(rec, path, fmt, K, True, reads)
+                    reads.append((api, nsel, sel, form_of(j + 1)))
+                trs += record_reads(ctx, rec, path, fmt, K, True, reads)
     return trs
 
 
@@ -436,7 +633,7 @@ def kinds_axis(ctx, rnd, by_n, maxn):
         spec = dict(base, ns=ns, seed=3000 + ki + 97 * ctx.seed)
         rec = make_recording(ctx.scratch / "c01" / f"k{ki}", spec)
         K = rnd.choice([2, 3])
-        cb = compress(rec, K)
+        cb = compress(rec, K, ctx)
         for sort in (True, False):
             for fmt, KK, path in (("bin", 0, rec["bin"]), ("cbin", K, cb)):
                 reads = []
@@ -449,8 +646,103 @@ def kinds_axis(ctx, rnd, by_n, maxn):
                         continue
                     api = rnd.choice(["getitem2", "getitem2", "read", "read_sync"]) if base["kind"] != "nidq" else \
                         rnd.choice(["getitem2", "read"])
-                    reads.append((api, nsel, csel, rnd.random() < 0.5))
-                trs += record_reads(rec, path, fmt, KK, sort, reads)
+                    reads.append((api, nsel, csel, rnd.choice([0, 0, 0, 0, 1, 1, 2, 3, 4, 5])))
+                trs += record_reads(ctx, rec, path, fmt, KK, sort, reads)
+    return trs
+
+
+def history_axis(ctx, by_n, maxn, seed, quick):
+    """the state a read can find and leave.  Recordings that share one file name (rec.ap.bin in two folders) and one folder
+    (rec.ap / rec.lf / rec.nidq side by side, each with its .cbin / .ch), all readers (bin and cbin, sorted and unsorted)
+    made before the first read, half of them opened later; reads go round the readers in turn: earlier reads are asked
+    again (their results were overwritten by the caller, their selector arrays are handed in again), calls that cannot
+    succeed are thrown in, half of the readers are closed and opened again midway.  Then the files of one recording are
+    replaced, under the same names, by those of another recording (the old .cbin / .ch still lying there) and read again.
+    Every read is judged by the clauses of spec/trace/ReaderTrace.tla like any other."""
+    rnd = random.Random(7919 * seed + 13)
+    root = ctx.scratch / "c01" / "hist"
+    hist = {"seed": seed, "tier": "quick" if quick else "thorough"}
+    nd = min(6, maxn - 1)
+
+    def g(n, a, b):
+        return [(GAINS[(i * a + 1) % 8], GAINS[(i * b + 3) % 8]) for i in range(n)]
+
+    def unsorted_sites(kind, n):
+        for _ in range(20):
+            sites = small_sites(kind, n, rnd)
+            if n == 1 or sorted(range(n), key=lambda i: (sites[i][0], sites[i][1], -sites[i][2])) != list(range(n)):
+                break
+        return sites
+    plan = [("p0", {"kind": "3B2", "stream": "ap", "sites": unsorted_sites("3B2", nd), "gains": g(nd, 3, 5)}),
+            ("p0", {"kind": "3B2", "stream": "lf", "sites": unsorted_sites("3B2", nd - 1), "gains": g(nd - 1, 5, 3)}),
+            ("p0", {"kind": "nidq", "nidq": (1, 1, 1, 1)}),
+            ("p1", {"kind": "NP2.4", "stream": "ap", "sites": unsorted_sites("NP2.4", nd - 2)})]
+    recs = []
+    for i, (sub, base) in enumerate(plan):
+        spec = dict(base, ns=rnd.randint(3, maxn), seed=5000 + i + 97 * seed, stem="rec")
+        rec = make_recording(root / sub, spec)
+        recs.append((rec, rnd.choice([2, 3])))
+    cbins = [compress(rec, K, ctx, hist) for rec, K in recs]
+
+    def talk(sessions, rounds, reopen_at=None):
+        past = {id(s): [] for s in sessions}
+        for rd in range(rounds):
+            order = sessions[:]
+            rnd.shuffle(order)
+            for ses in order:
+                ns, nc, mine = ses.rec["ns"], ses.rec["nc"], past[id(ses)]
+                if mine and rnd.random() < 0.3:
+                    ses.read(*rnd.choice(mine))              # the same call again
+                    continue
+                nsel, csel = rnd.choice(by_n[ns]), rnd.choice(by_n[nc])
+                if rnd.random() < 0.2:
+                    csel = ALL
+                if (ses.fmt == "cbin" and nsel["k"] == "list") or (nsel["k"] == "list" and csel["k"] == "list"):
+                    nsel = S(NONE, NONE, rnd.choice([NONE, -1, 2, -2]))
+                apis = ["getitem2", "getitem2", "read"] + (["read_sync"] if ses.rec["gen"] else [])
+                if csel is ALL and nsel["k"] != "list":
+                    apis += ["getitem1", "read_default"] + (["read_samples_default"] if nsel["k"] == "slice" and nsel["s"] == NONE else [])
+                call = (rnd.choice(apis), nsel, csel, rnd.choice([0, 0, 1, 2, 3, 4, 5]))
+                mine.append(call)
+                ses.read(*call)
+                if rnd.random() < 0.15:
+                    ses.poke(rnd.randrange(4))
+            if reopen_at is not None and rd == reopen_at:
+                for ses in sessions[::2]:
+                    ses.reopen()
+    rounds = 40 if quick else 200
+    sessions = []
+    for sort in (True, False):         # readers of different recordings and formats are made in turn, none has read yet
+        for fmt in ("bin", "cbin"):
+            for (rec, K), cb in zip(recs, cbins):
+                sessions.append(Session(ctx, rec, cb if fmt == "cbin" else rec["bin"], fmt, K if fmt == "cbin" else 0, sort,
+                                        opened=len(sessions) % 2 == 0, hist=hist))
+    for ses in sessions:
+        ses.open()
+    talk(sessions, rounds, reopen_at=rounds // 2)
+    trs = []
+    for ses in sessions:
+        trs += ses.close()
+    # the same names, another recording: p0/rec.ap.bin + .meta are replaced; the .cbin / .ch of the old one are still there
+    spec = {"kind": "NP2.1", "stream": "ap", "sites": unsorted_sites("NP2.1", max(2, nd - 3)), "ns": rnd.randint(3, maxn),
+            "seed": 5100 + 97 * seed, "stem": "rec", "range_max": 0.62, "maxint": 2048}
+    if spec["ns"] == recs[0][0]["ns"]:
+        spec["ns"] = spec["ns"] - 1
+    rec2 = make_recording(root / "p0", spec)
+    second = [Session(ctx, rec2, rec2["bin"], "bin", 0, sort, hist=hist) for sort in (True, False)]
+    talk(second, rounds)
+    for ses in second:
+        trs += ses.close()
+    if cbins[0] is not None:
+        cbins[0].unlink()
+        cbins[0].with_suffix(".ch").unlink()
+    K2 = 5 - recs[0][1]
+    cb2 = compress(rec2, K2, ctx, hist)
+    third = [Session(ctx, rec2, cb2, "cbin", K2, sort, hist=hist) for sort in (True, False)] + \
+        [Session(ctx, recs[1][0], recs[1][0]["bin"], "bin", 0, True, hist=hist)]       # the neighbour (rec.lf) is what it was
+    talk(third, rounds)
+    for ses in third:
+        trs += ses.close()
     return trs
 
 
@@ -479,14 +771,20 @@ def big_files(ctx, rnd, big):
         if len(np.unique(rec["data"])) != 65536:
             raise tlc.TLCError("big recording does not contain every int16 value")
         K = 100
-        cb = compress(rec, K)
+        cb = compress(rec, K, ctx)
         sites = rec["sites"]
         for sort in (True, False):
             porder = (sorted(range(384), key=lambda i: (sites[i][0], sites[i][1], -sites[i][2])) if sort else list(range(384))) + [384]
             porder = np.array(porder)
             full = rec["data"].astype(np.float32).astype(np.float64)[:, porder] * rec["factors"][porder]
             for fmt, KK, path in (("bin", 0, rec["bin"]), ("cbin", K, cb)):
-                sr, head = open_trace(rec, path, fmt, KK, sort)
+                if path is None:
+                    continue
+                try:
+                    sr, head = open_trace(rec, path, fmt, KK, sort)
+                except Exception as e:
+                    open_raised(ctx, rec, fmt, KK, sort, path, e, None)
+                    continue
                 head["hdr"], head["reads"] = head["hdr"], []
                 opens.append(head)
                 pool_c = [ALL, {"k": "int", "i": 7}, S(NONE, NONE, -3), {"k": "list", "l": [384, 0, 200]}, S(380, NONE, NONE)]
@@ -511,7 +809,7 @@ def big_files(ctx, rnd, big):
                     shape = ([len(rr["idx"])] if rr["dim"] else []) + ([len(cc["idx"])] if cc["dim"] else [])
                     ncomp += 1
                     try:
-                        got = np.asarray(do_read(sr, "getitem2", rsel, csel, array=ncomp % 2 == 0))
+                        got = np.asarray(do_read(sr, "getitem2", rsel, csel, array=form_of(ncomp), np_rows=fmt == "bin"))
                         ok = list(got.shape) == shape and np.all(np.abs(got.reshape(exp.shape).astype(np.float64) - exp) <= RTOL * np.abs(exp))
                         what = f"shape {list(got.shape)} expected {shape}" if list(got.shape) != shape else "values differ from float32(raw) x factor"
                     except Exception as ex:
@@ -521,7 +819,7 @@ def big_files(ctx, rnd, big):
                         key = KNOWN_F12 if is_f12(fmt, rsel) else "read:Big"
                         ctx.violation(key, f"{spec['kind']} 385x385 {fmt} sort={sort}: sr[{show(rsel)}, {show(csel)}]: {what}",
                                       {"spec": {k: v for k, v in spec.items()}, "fmt": fmt, "K": KK, "sort": sort,
-                                       "read": {"call": "getitem2", "nsel": rsel, "csel": csel}, "big": True})
+                                       "read": {"call": "getitem2", "nsel": rsel, "csel": csel, "form": form_of(ncomp)}, "big": True})
                 sr.close()
     ctx.count(ncomp)
     ctx.cov["big_reads_compared_with_exported_positions"] = ncomp
@@ -556,12 +854,22 @@ def all_values(ctx):
         data = np.stack([rng.permutation(vals) for _ in range(rec["nc"])], axis=1)
         data.tofile(rec["bin"])
         exp = data.astype(np.float32).astype(np.float64) * rec["factors"]
-        srb = spikeglx.Reader(rec["bin"], sort=False)
-        cb = srb.compress_file(keep_original=True, check_after_compress=False, quiet=True)
+        try:
+            srb = spikeglx.Reader(rec["bin"], sort=False)
+            cb = srb.compress_file(keep_original=True, check_after_compress=False, quiet=True)
+        except Exception as e:
+            ctx.violation("open:Raised", f"{kind} {stream} 65536 samples: opening / compressing raised {type(e).__name__}: {e}"[:300],
+                          {"spec": spec, "allvalues": True})
+            continue
         for path in (rec["bin"], cb):
-            sr = spikeglx.Reader(path, sort=False)
-            got = sr[:, :].astype(np.float64)
-            sr.close()
+            try:
+                sr = spikeglx.Reader(path, sort=False)
+                got = np.asarray(sr[:, :]).astype(np.float64)
+                sr.close()
+            except Exception as e:
+                ctx.violation("read:Raised", f"{kind} {stream} {path.suffix}: sr[:, :] on 65536 samples raised {type(e).__name__}: {e}"[:300],
+                              {"spec": spec, "allvalues": True})
+                continue
             err = np.abs(got - exp) > RTOL * np.abs(exp)
             n += got.size
             if got.shape != exp.shape or err.any():
@@ -578,7 +886,7 @@ def all_values(ctx):
 
 # ------------------------------------------------------------------------------------------------
 def selftest(ctx, good, small):
-    cands = [t for t in good if t["gen"] and any(len(r["toks"]) >= 4 and len(r["shape"]) == 2 for r in t["reads"])][:21]
+    cands = [t for t in good if t["gen"] and t["nsync"] == 1 and any(len(r["toks"]) >= 4 and len(r["shape"]) == 2 for r in t["reads"])][:21]
     if len(cands) < 7:
         if ctx.violations or ctx.known_hits:
             ctx.cov["selftest_corrupted_traces_rejected"] = "skipped: too few accepted traces on a violating tree"
@@ -639,9 +947,18 @@ def replay(ctx, sc):
     if sc.get("allvalues"):
         all_values(ctx)
         return
+    if sc.get("hist"):      # a read inside a history: the whole history is run again (same seed, same selector tables)
+        quick = sc["hist"]["tier"] == "quick"
+        small = model_export(ctx, quick)["small"]
+        check_table_against_numpy(small)
+        by_n = tables_by_length(small)
+        judge(ctx, history_axis(ctx, by_n, max(by_n), sc["hist"]["seed"], quick), "reader_replay", jvms=2)
+        return
     rec = make_recording(ctx.scratch / "c01" / "replay", sc["spec"])
-    path = compress(rec, sc["K"]) if sc["fmt"] == "cbin" else rec["bin"]
+    path = compress(rec, sc["K"], ctx) if sc["fmt"] == "cbin" else rec["bin"]
     rd = sc.get("read")
+    if path is None:
+        return
     if sc.get("big"):
         import spikeglx
         sites = rec["sites"]
@@ -651,13 +968,13 @@ def replay(ctx, sc):
         exp = full[np.ix_(rr["idx"], cc["idx"])]
         sr = spikeglx.Reader(path, sort=sc["sort"])
         try:
-            got = np.asarray(do_read(sr, "getitem2", rd["nsel"], rd["csel"]))
+            got = np.asarray(do_read(sr, "getitem2", rd["nsel"], rd["csel"], array=rd.get("form", False), np_rows=sc["fmt"] == "bin"))
             ok = got.size == exp.size and np.all(np.abs(got.reshape(exp.shape).astype(np.float64) - exp) <= RTOL * np.abs(exp))
         except Exception:
             ok = False
         if not ok:
             ctx.violation(KNOWN_F12 if is_f12(sc["fmt"], rd["nsel"]) else "read:Big", f"replay: sr[{show(rd['nsel'])}, {show(rd['csel'])}] differs", sc)
         return
-    reads = [] if rd is None else [(rd["call"], rd["nsel"], rd["csel"], False)]
-    trs = record_reads(rec, path, sc["fmt"], sc["K"], sc["sort"], reads)
+    reads = [] if rd is None else [(rd["call"], rd["nsel"], rd["csel"], rd.get("form", False))]
+    trs = record_reads(ctx, rec, path, sc["fmt"], sc["K"], sc["sort"], reads)
     judge(ctx, trs, "reader_replay", jvms=1)
